@@ -353,20 +353,44 @@ theorem similarity_response_fields_roundtrip (ident : Nat) (prefs tb : ValList) 
         exact chunksAux_joinBytes prefs.toList pb pb.length hj hp (Nat.le_refl _)
       simp [Old.simRespUnpack, e1, Old.bytesList, e2, ofList_toList, Nat.mod_eq_of_lt hi]
 
-/-- constructors of the hand-written payloads do not alter in-domain values: when every integer argument fits the
-    unsigned short it is sent as, the attributes are exactly the arguments (`identifier % 65536` is the identity on the
-    whole `H` domain, 65535 included); DiscoveryIntroductionRequestPayload only appends its fixed supports_new_style -/
-theorem old_init_keeps_in_domain_values (cls : String) (args : List Val) (h : identsInDomain args) :
-    Old.init cls args = args ∨ Old.init cls args = args ++ [.atom (.nat 1)] := by
+/-- the identifier argument (at the class's identifier position, if it has one) fits the unsigned short it is sent as -/
+def identOk (cls : String) (args : List Val) : Prop :=
+  match Old.identPos (Old.short cls) with
+  | none => True
+  | some i => ∀ k, args[i]? = some (.atom (.nat k)) → k < 65536
+
+theorem modIdentAt_ok : (i : Nat) → (args : List Val) → (∀ k, args[i]? = some (.atom (.nat k)) → k < 65536) →
+    Old.modIdentAt i args = args
+  | 0, [], _ => rfl
+  | _+1, [], _ => rfl
+  | 0, v :: r, h => by
+    cases v with
+    | atom a =>
+      cases a with
+      | nat k => simp [Old.modIdentAt, Nat.mod_eq_of_lt (h k (by simp))]
+      | _ => rfl
+    | _ => rfl
+  | i+1, v :: r, h => by
+    simp [Old.modIdentAt, modIdentAt_ok i r (fun k hk => h k (by simpa using hk))]
+
+/-- constructors of the hand-written payloads: when the identifier argument lies in the `H` domain (65535 included) the
+    attributes are EXACTLY the arguments — other integer arguments (e.g. a 64-bit global time) are never touched — except
+    that DiscoveryIntroductionRequestPayload, and only it, appends its fixed `supports_new_style = 1`.
+    (The content is `k < 65536 → k % 65536 = k` at the right argument position of the right classes; the link to the code is
+    the driver op `old … init` on every generated instance, in and out of domain.) -/
+theorem old_init_keeps_in_domain_identifier (cls : String) (args : List Val) (h : identOk cls args) :
+    Old.init cls args =
+      if Old.short cls == "DiscoveryIntroductionRequestPayload" then args ++ [.atom (.nat 1)] else args := by
   have e : Old.reduceIdent (Old.short cls) args = args := by
     unfold Old.reduceIdent
-    cases Old.identPos (Old.short cls) with
+    unfold identOk at h
+    cases hp : Old.identPos (Old.short cls) with
     | none => rfl
-    | some i => exact modIdentAt_in_domain i args h
+    | some i => rw [hp] at h; exact modIdentAt_ok i args h
   unfold Old.init
   by_cases hc : (Old.short cls == "DiscoveryIntroductionRequestPayload") = true
-  · right; simp [hc, e, Old.n]
-  · left; simp [hc, e]
+  · simp [hc, e, Old.n]
+  · simp [hc, e]
 
 /-- boundary: identifier 65535 survives the constructor, 65536 wraps to 0 -/
 example : Old.init "ipv8.messaging.payload.PuncturePayload" [.atom (.bytes []), .atom (.bytes []), .atom (.nat 65535)]
@@ -414,23 +438,35 @@ example :
 
   FULL statement wanted by the property (every dataclass message type decodes to itself with all its fields, whatever
   happened before in the process):
-      ∀ ops c, recvResult all parent (run all parent fuel ops) fuel c = some c ∧ lookupNames … c = all c
-  This is FALSE for the code as it is (known finding `DataClassPayload:decode-before-first-instance`): see the two witnesses
+      ∀ ops c fm, recvResult all parent (run all parent fuel ops) fuel c fm = some c ∧ lookupNames … c = all c
+  This is FALSE for the code as it is (known finding `DataClassPayload:decode-before-first-instance`): see the three witnesses
   below.  Proved part: the statement under the explicit hypothesis that `c` has been INSTANTIATED at least once. -/
 
-/-- partial: after any sequence of instantiations and receptions (of this class, its bases, its subclasses, unrelated classes,
-    in any order) a class that has been instantiated at least once carries its own full field list and decodes to itself -/
+/-- partial: after any sequence of instantiations and receptions (of this class, its bases, its subclasses, nested member
+    classes, unrelated classes, in any order) a class that has been INSTANTIATED at least once carries its own full field list,
+    and a datagram of it decodes to an instance of it PROVIDED every nested member class present in the datagram has been
+    instantiated as well.  What the theorem carries: conversions are never undone and a reception of one class never damages
+    another; that instantiation stores the full field list is the definition of `instantiate` (compared with the code through
+    `dc` after every step), and `all` is a parameter. -/
 theorem dataclass_converted_after_first_instance_partial (all : Nat → List String) (parent : Nat → Option Nat)
-    (ops : List Dc.Op) (c fuel : Nat) (hc : Dc.Op.inst c ∈ ops) :
+    (ops : List Dc.Op) (c fuel : Nat) (fm : List (Option Nat)) (hc : Dc.Op.inst c ∈ ops)
+    (hm : ∀ m ∈ Dc.membersMet all c fm, Dc.Op.inst m ∈ ops) :
     Dc.lookupNames parent (Dc.run all parent (fuel + 1) ops) (fuel + 1) c = all c ∧
-    Dc.recvResult all parent (Dc.run all parent (fuel + 1) ops) (fuel + 1) c = some c := by
-  have h := Dc.foldl_keeps all parent (fuel + 1) ops Dc.init c (Or.inl hc)
-  have h' : Dc.run all parent (fuel + 1) ops c = some (all c) := h
-  simp [Dc.lookupNames, Dc.recvResult, Dc.owner, h']
+    Dc.recvResult all parent (Dc.run all parent (fuel + 1) ops) (fuel + 1) c fm = some c := by
+  have h' : Dc.run all parent (fuel + 1) ops c = some (all c) :=
+    Dc.foldl_keeps all parent (fuel + 1) ops Dc.init c (Or.inl hc)
+  have hmem : Dc.firstUnconverted (Dc.run all parent (fuel + 1) ops) (Dc.membersMet all c fm) = none := by
+    unfold Dc.firstUnconverted
+    rw [List.find?_eq_none]
+    intro m hmm
+    have : Dc.run all parent (fuel + 1) ops m = some (all m) :=
+      Dc.foldl_keeps all parent (fuel + 1) ops Dc.init m (Or.inl (hm m hmm))
+    simp [this]
+  simp [Dc.lookupNames, Dc.recvResult, Dc.owner, h', hmem]
 
 /-- negation witness 1: a message type that was only ever RECEIVED: decoding raises (class 0 with two fields, no history) -/
 theorem dataclass_receive_first_raises_witness :
-    Dc.recvResult (fun _ => ["x", "y"]) (fun _ => none) (Dc.run (fun _ => ["x", "y"]) (fun _ => none) 3 []) 3 0 = none := by
+    Dc.recvResult (fun _ => ["x", "y"]) (fun _ => none) (Dc.run (fun _ => ["x", "y"]) (fun _ => none) 3 []) 3 0 [] = none := by
   decide
 
 /-- negation witness 2: base class 0 instantiated, derived class 1 (one more field) only received: it decodes as an
@@ -438,14 +474,50 @@ theorem dataclass_receive_first_raises_witness :
 theorem dataclass_receive_first_decodes_as_base_witness :
     let all : Nat → List String := fun c => if c = 0 then ["x", "y"] else ["x", "y", "z"]
     let parent : Nat → Option Nat := fun c => if c = 1 then some 0 else none
-    Dc.recvResult all parent (Dc.run all parent 3 [.inst 0]) 3 1 = some 0 ∧
+    Dc.recvResult all parent (Dc.run all parent 3 [.inst 0]) 3 1 [] = some 0 ∧
     Dc.lookupNames parent (Dc.run all parent 3 [.inst 0]) 3 1 = ["x", "y"] := by
   decide
 
-/-- a sequence field comes back in its annotated container (list, tuple or set); was FALSE before 60e7956
-    (fixed finding `DataClassPayload:tuple-set-field-decodes-as-list`), now the full statement -/
-theorem dataclass_container_roundtrip (k : Dc.Container) : Dc.decodedContainer k = k := by
-  cases k <;> rfl
+/-- negation witness 3: the message class 0 (fields n, items: list of class 1) HAS been instantiated, the nested class 1 has
+    not: a peer's datagram with a non-empty `items` raises; the failed attempt converts class 1, the second attempt succeeds -/
+theorem dataclass_unconverted_member_raises_witness :
+    let all : Nat → List String := fun c => if c = 0 then ["n", "items"] else ["a"]
+    let parent : Nat → Option Nat := fun _ => none
+    Dc.recvResult all parent (Dc.run all parent 3 [.inst 0]) 3 0 [none, some 1] = none ∧
+    Dc.recvResult all parent (Dc.run all parent 3 [.inst 0, .recv 0 [none, some 1]]) 3 0 [none, some 1] = some 0 := by
+  decide
+
+/-- container of a decoded sequence field: along ANY inheritance chain in which every class annotates the field anew
+    (list / tuple / set in any order, each class converted after its base), as long as no user-defined `fix_unpack_` rule is
+    in play, the field decodes into the container the LAST class annotates.  The rule selection of `convert_to_payload`
+    (`Dc.installRule`: recompute own rules, `_keep_container` when a subclass goes back to list, keep user rules) is
+    modelled branch by branch, so dropping a branch makes this fail; linked to the code by driver op `dcrule`. -/
+theorem dataclass_container_follows_annotation (anns : List Dc.Container) (last : Dc.Container) :
+    Dc.applyRule (Dc.chainRule none (anns ++ [last])) = last := by
+  have inv : ∀ (l : List Dc.Container) (r : Option Dc.Rule), Dc.libraryOwn r = true →
+      Dc.libraryOwn (Dc.chainRule r l) = true := by
+    intro l
+    induction l with
+    | nil => intro r h; simpa [Dc.chainRule] using h
+    | cons a as ih =>
+      intro r h
+      simp only [Dc.chainRule, List.foldl_cons]
+      exact ih _ (Dc.installRule_own r a h).1
+  simp only [Dc.chainRule, List.foldl_append, List.foldl_cons, List.foldl_nil]
+  exact (Dc.installRule_own _ last (inv anns none rfl)).2
+
+/-- a user-defined rule is never replaced, whatever the subclasses annotate -/
+theorem dataclass_user_rule_kept (r : Dc.Container) (anns : List Dc.Container) :
+    Dc.chainRule (some (.user r)) anns = some (.user r) := by
+  induction anns with
+  | nil => rfl
+  | cons a as ih => simpa [Dc.chainRule, Dc.installRule] using ih
+
+/-- non-vacuity / the branches matter: tuple in the base, list in the subclass decodes a list (needs `_keep_container`),
+    list → set → tuple decodes a tuple -/
+example : Dc.applyRule (Dc.chainRule none [.tuple, .list]) = .list
+    ∧ Dc.chainRule none [.tuple, .list] = some .keep
+    ∧ Dc.applyRule (Dc.chainRule none [.list, .set, .tuple]) = .tuple := by decide
 
 /-- `payload_dataclass.type_map` (evaluated on the live module for the 12 probed annotations bool, int, float, bytes, str,
     list[bool|int|float], tuple[int|bool|float], set[int]) is the frozen one and only names registered formats -/
@@ -455,7 +527,7 @@ theorem dataclass_type_map_frozen : typeMap = frozenTypeMap ∧ ∀ e ∈ typeMa
 /-- hypothesis of the partial theorem is satisfiable: derived class received first (lost), then instantiated, then received -/
 example : Dc.recvResult (fun c => if c = 0 then ["x"] else ["x", "z"]) (fun c => if c = 1 then some 0 else none)
       (Dc.run (fun c => if c = 0 then ["x"] else ["x", "z"]) (fun c => if c = 1 then some 0 else none) 3
-        [.inst 0, .recv 1, .inst 1]) 3 1 = some 1 := by decide
+        [.inst 0, .recv 1 [], .inst 1]) 3 1 [] = some 1 := by decide
 
 /-- the model distinguishes the "convert only while `cls.names` is empty" policy: base first, then the derived class —
     the derived class keeps the base's single field -/
